@@ -9,7 +9,8 @@ Conventions (types.py / generator.py)
       channel 1 = agents (agent id + 1, 0 = none).
     * Directions 0 UP (x-1), 1 RIGHT (y+1), 2 DOWN (x+1), 3 LEFT (y-1); turn left = direction-1,
       turn right = direction+1 (mod 4).  Forward at the border stays in place (clamped).
-    * `env.goals` holds (column, row) pairs; `env.highways[x, y]` marks cells that are not shelf slots.
+    * Goal cells: the two middle cells of the bottom row (class docstring floor plan); `env.goals` stores
+      them as (column, row).  `env.highways[x, y]` marks cells that are not shelf slots.
     * `agents.is_carrying` is an int 0/1, `shelves.is_requested` a float 0/1; both are read as bools.
 
 Rules
@@ -60,7 +61,9 @@ def _info(env: Any) -> Dict[str, Any]:
     c = _CACHE.get(id(env))
     if c is None:
         hw = np.asarray(env.highways).astype(bool)
-        goals = [(int(g[1]), int(g[0])) for g in np.asarray(env.goals)]  # -> (x, y)
+        # goal cells per the class docstring's floor plan ("----GG----"): the two middle cells of the
+        # bottom row, as (x, y); env.goals stores the same cells as (column, row)
+        goals = [(int(hw.shape[0]) - 1, int(hw.shape[1]) // 2 - 1), (int(hw.shape[0]) - 1, int(hw.shape[1]) // 2)]
         c = dict(hw=hw, H=int(hw.shape[0]), W=int(hw.shape[1]), goals=goals, n=int(env.num_agents),
                  r=int(env.sensor_range), T=int(env.time_limit), q=int(env.request_queue_size), env=env,
                  n_shelves=int((~hw).sum()))
